@@ -28,6 +28,9 @@ type Rec struct {
 	Hold <-chan struct{}
 	// Session label (to tell sessions apart on the tape).
 	Session string
+	// Gate, when set, makes the first SetShareData call park (tape event "setshare-parked") until it is closed.
+	Gate <-chan struct{}
+	gated bool
 	// SelfParty, when set, is the party identifier this instance stands for
 	// (harness knowledge from the membership map); otherwise the factory
 	// argument is used. Payloads carry it as sender.
@@ -127,6 +130,11 @@ func (r *Rec) OnMsg(b []byte, from uint16, broadcast bool) {
 }
 
 func (r *Rec) SetShareData(d []byte) error {
+	if r.Gate != nil && !r.gated {
+		r.gated = true
+		r.Tape.add(Event{Kind: "setshare-parked", Node: r.Node, Party: r.Party, Session: r.Session})
+		<-r.Gate
+	}
 	if len(d) < 4 || string(d[:4]) != "rec:" {
 		return fmt.Errorf("rec: unusable share data")
 	}
